@@ -542,3 +542,49 @@ package gtab
 //@   modifies p.*, allelems(byte), rpos(p.r), faults(p.r)
 //@   loop 0
 //@     invariant parser.inv(p) && p.r == old(p.r) && faults(p.r) <= old(faults(p.r)) && fresh(valueRecords) && len(valueRecords) == valueCount
+
+// Pair adjustment, format 1 (GPOS lookup type 2): the partner is the next
+// glyph the lookup flags keep; the pair (left, right) selects the adjustment;
+// without a second value record the next pair starts at the second glyph.
+//@ func (l Gpos2_1) apply(ctx *Context, a int, b int) (next int)   props: C06 C07
+//@   requires ctx != nil && 0 <= a && a < b && b <= len(ctx.seq) && stackinv(ctx) && keepOK(ctx) && llOK(ctx)
+//@   requires forall x uint16 :: forall y uint16 :: has(l, glyph.Pair{x, y}) ==> l[glyph.Pair{x, y}] != nil
+//@   ensures next >= -1 && next <= len(ctx.seq) && stackinv(ctx) && len(ctx.seq) == old(len(ctx.seq)) && len(ctx.stack) == old(len(ctx.stack))
+//@   ensures next == -1 || (a < next && next <= b)
+//@   ensures forall i int :: 0 <= i && i < len(ctx.seq) ==> ctx.seq[i].GID == old(ctx.seq[i].GID)
+//@   return_assert next >= 0 ==> a < p && p < b && has(l, glyph.Pair{g1.GID, g2.GID}) && next == ite(adj.Second == nil, p, p + 1)
+//@   may_panic
+//@   modifies ctx.seq[*]
+//@   loop 0
+//@     invariant a < p && p <= b && b <= len(seq) && ref(seq) == ref(ctx.seq) && off(seq) == off(ctx.seq) && len(seq) == len(ctx.seq)
+//@     decreases b - p
+
+//@ func readGpos2_1(p *parser.Parser, subtablePos int64) (s Subtable, err error)   props: C02 C18 C07
+//@   requires parser.inv(p) && subtablePos >= 0 && subtablePos <= 4611686018427387904
+//@   ensures err == nil ==> parser.inv(p) && s != nil && is(s, Gpos2_1)
+//@   ensures err == nil ==> forall x uint16 :: forall y uint16 :: has(s.(Gpos2_1), glyph.Pair{x, y}) ==> s.(Gpos2_1)[glyph.Pair{x, y}] != nil
+//@   ensures p.r == old(p.r) && (faults(p.r) > old(faults(p.r)) ==> err != nil)
+//@   modifies p.*, allelems(byte), rpos(p.r), faults(p.r)
+//@   loop 0
+//@     invariant parser.inv(p) && p.r == old(p.r) && faults(p.r) <= old(faults(p.r)) && fresh(pairSetOffsets) && len(pairSetOffsets) == pairSetCount
+//@   loop 1
+//@     invariant parser.inv(p) && p.r == old(p.r) && faults(p.r) <= old(faults(p.r)) && fresh(adjust) && len(adjust) == len(pairSetOffsets) && cov != nil && fresh(cov)
+//@     invariant forall g uint16 :: has(cov, g) ==> 0 <= cov[g] && cov[g] < len(adjust)
+//@     invariant forall k int :: 0 <= k && k < iter ==> adjust[k] != nil && fresh(adjust[k]) && ref(adjust[k]) != ref(cov) && forall y uint16 :: has(adjust[k], y) ==> adjust[k][y] != nil
+//@   loop 2
+//@     invariant parser.inv(p) && p.r == old(p.r) && faults(p.r) <= old(faults(p.r)) && fresh(adjust) && len(adjust) == len(pairSetOffsets) && cov != nil && fresh(cov) && 0 <= j && j <= pairValueCount && adj != nil && fresh(adj)
+//@     invariant forall g uint16 :: has(cov, g) ==> 0 <= cov[g] && cov[g] < len(adjust)
+//@     invariant forall k int :: 0 <= k && k < i ==> adjust[k] != nil && fresh(adjust[k]) && ref(adjust[k]) != ref(cov) && forall y uint16 :: has(adjust[k], y) ==> adjust[k][y] != nil
+//@     invariant ref(adj) != ref(cov) && forall y uint16 :: has(adj, y) ==> adj[y] != nil
+//@     decreases pairValueCount - j
+//@   loop 3
+//@     invariant res != nil && fresh(res) && fresh(adjust) && cov != nil
+//@     invariant forall g uint16 :: has(cov, g) ==> 0 <= cov[g] && cov[g] < len(adjust)
+//@     invariant forall k int :: 0 <= k && k < len(adjust) ==> adjust[k] != nil && ref(adjust[k]) != ref(cov) && forall y uint16 :: has(adjust[k], y) ==> adjust[k][y] != nil
+//@     invariant forall x uint16 :: forall y uint16 :: has(res, glyph.Pair{x, y}) ==> res[glyph.Pair{x, y}] != nil
+//@   loop 4
+//@     invariant res != nil && fresh(res) && fresh(adjust) && cov != nil && 0 <= i && i < len(adjust)
+//@     invariant nseen(cov) == atentry(nseen(cov)) && forall g uint16 :: seen(cov, g) == atentry(seen(cov, g))   // the outer iteration over cov is not disturbed
+//@     invariant forall g uint16 :: has(cov, g) ==> 0 <= cov[g] && cov[g] < len(adjust)
+//@     invariant forall k int :: 0 <= k && k < len(adjust) ==> adjust[k] != nil && ref(adjust[k]) != ref(cov) && forall y uint16 :: has(adjust[k], y) ==> adjust[k][y] != nil
+//@     invariant forall x uint16 :: forall y uint16 :: has(res, glyph.Pair{x, y}) ==> res[glyph.Pair{x, y}] != nil
